@@ -1,0 +1,16 @@
+//go:build verif
+
+package edit
+
+import "src.elv.sh/pkg/cli/tk"
+
+// VerifC28BufferBuiltins exposes the table of buffer builtins (pure functions
+// on tk.CodeBuffer) to the verification harness (/verif, property C28).
+// Add-only; compiled only with -tags verif.
+func VerifC28BufferBuiltins() map[string]func(*tk.CodeBuffer) {
+	m := make(map[string]func(*tk.CodeBuffer), len(bufferBuiltinsData))
+	for name, fn := range bufferBuiltinsData {
+		m[name] = fn
+	}
+	return m
+}
